@@ -657,7 +657,7 @@ impl Engine for EmitRun {
     fn run_case(&self, w: &mut Worker, idx: u64) {
         self.run(w, idx)
     }
-    fn describe_case(&self, _prop: &str, tier: Tier, seed: u64, idx: u64) -> Value {
+    fn describe_case(&self, _prop: &str, tier: Tier, seed: u64, idx: u64, _sub: u64) -> Value {
         let c = make_case(seed, tier, idx);
         json!({"class": "generated-grammar", "grammar_src": c.src})
     }
